@@ -218,6 +218,11 @@ std::string classifyDeath(const std::string &err, int status) {
       a = b + 2;
     }
     std::string fn = parts.size() >= 3 ? parts[parts.size() - 1] : "?";
+    // clang prints the whole signature: keep the bare function name
+    size_t par = fn.find('(');
+    if (par != std::string::npos) fn = fn.substr(0, par);
+    size_t sp = fn.find_last_of(" *");
+    if (sp != std::string::npos) fn = fn.substr(sp + 1);
     return "assert:" + fn;
   }
   if ((p = err.rfind("FATAL: \"")) != std::string::npos) {
